@@ -14,16 +14,32 @@ partial def loop (h : IO.FS.Stream) (out : IO.FS.Stream) (f : String → String)
   if l.isEmpty || l.startsWith "#" then out.putStrLn l else out.putStrLn (f l)
   loop h out f
 
+def loadLayout (dir : String) (name : String) : IO (Option Driver.LayoutProgs) := do
+  let c ← IO.FS.readFile s!"{dir}/{name}.composition.txt"
+  let o ← IO.FS.readFile s!"{dir}/{name}.oods.txt"
+  let f ← IO.FS.readFile s!"{dir}/{name}.gvfields.txt"
+  match AstText.parseFile c, AstText.parseFile o with
+  | some cp, some op => return some ⟨name, cp, op, (f.splitOn "\n").filter (· ≠ "")⟩
+  | _, _ => return none
+
 def main (args : List String) : IO UInt32 := do
   let stdin ← IO.getStdin
   let stdout ← IO.getStdout
   match args with
-  | ["model", hash, stone] =>
+  | "model" :: hash :: stone :: rest =>
     match Hashes.ofName? hash with
     | none => IO.eprintln "unknown hash"; return 2
     | some H =>
-      loop stdin stdout (Driver.answer H (stone == "stone6"))
+      let mut ctx : Driver.Ctx := {}
+      match rest with
+      | [dir, names] =>
+        for n in names.splitOn "," do
+          match ← loadLayout dir n with
+          | some l => ctx := { ctx with layouts := l :: ctx.layouts }
+          | none => IO.eprintln s!"cannot parse translated programs of layout {n}"; return 3
+      | _ => pure ()
+      loop stdin stdout (Driver.answer ctx H (stone == "stone6"))
       return 0
   | _ =>
-    IO.eprintln "usage: drv model <k160|k248|b160|b248> <stone5|stone6>"
+    IO.eprintln "usage: drv model <k160|k248|b160|b248> <stone5|stone6> [<astdir> <layout,layout,..>]"
     return 2
